@@ -9,6 +9,7 @@ import ChumskyModel.Proofs.Lemmas.NestedRefine
 import ChumskyModel.Proofs.Lemmas.NestedHole
 import ChumskyModel.Proofs.Lemmas.NestedMode
 import ChumskyModel.Proofs.Lemmas.NestedAlt
+import ChumskyModel.Proofs.Lemmas.ExtAll
 set_option linter.unusedSimpArgs false
 namespace Chumsky
 
@@ -193,6 +194,48 @@ example :
       | _ => (false, 99, 0)) = (true, 0, 3) := by
   decide +kernel
 
+/-! ### nested inputs and Pratt expressions together (`Model/Ext.lean`)
+
+  The usual front end: brackets grouped into token trees by the lexer, `nested_in` for the groups, `pratt` for the expressions
+  inside them, each referring to the other. `EEnv` lists any number of such extensions; `.call (base + i)` is extension `i`
+  everywhere. -/
+
+/-- machine ⊑ reading, every grammar position, mode, state, fuel, token tree, operator table -/
+theorem c16_with_pratt_refines (e : EEnv) (n : Nat) (env : Env) (m : Mode) (g : G) (st : St) (hm : env.memoOn = false) :
+    Refines m st.errs st.ctx (runE e n env m g st) (pegE e n env g st.ss st.ctx) :=
+  runE_refines e n env m g st hm
+
+theorem c16_with_pratt_parse (e : EEnv) (n : Nat) (env : Env) (m : Mode) (g : G) (hm : env.memoOn = false) :
+    TopRefines m (parseTopE e n env m g) (pegTopE e n env g) :=
+  parseTopE_refines e n env m g hm
+
+theorem c16_with_pratt_check_eq_emit (e : EEnv) (n : Nat) (env : Env) (g : G) (st : St) :
+    runE e n env .check g st = (runE e n env .emit g st).erase :=
+  (runE_modeSim e n).1 env g st
+
+theorem c16_with_pratt_failure_reported (e : EEnv) (n : Nat) (env : Env) (hek : env.ek ≠ .empty)
+    (hdefs : ∀ d ∈ env.defs, d.c06 = true) (hx : ∀ x ∈ e.exts, x.c06 = true) (m : Mode) (g : G) (hg : g.c06 = true)
+    (r : ParseResult) (f : St) (hp : parseTopE e n env m g = .result r f) (ho : r.output = none) :
+    ∃ l l', f.alt = some l ∧ summ env.ek f.log = some l' ∧ l.equiv l' ∧ r.errs = f.errs.map (·.err) ++ [l.err] ∧
+      (∀ ev ∈ f.log, ev.pos ≤ l.pos) :=
+  parseTopE_primary_error e n env hek hdefs hx m g hg r f hp ho
+
+/-- non-vacuity: `x * G` where the group `G` = `[x, +, y]` is itself an expression: extension 0 is the Pratt parser (its atom
+    is a name or a group parsed by extension 1), extension 1 is `expr.nested_in(select G)`. Accepted, whole input consumed. -/
+example :
+    let e : EEnv := { base := 100, gap := 1, groups := [(1000, [120, 43, 121])],
+                      exts := [.pratt (.or_ (.oneOf [120, 121]) (.call 101)) [.infix true 1 (.just [43]), .infix true 2 (.just [42])],
+                               .nested (.call 100) (.select [1000])] }
+    (match parseTopE e 60 { toks := [120, 42, 1000], kind := .mapped, tspans := layoutSpans 1 3 0, eoi := (10, 10),
+                            memoOn := false } .emit (.call 100) with
+      | .result r f => (r.output.isSome, r.errs.length, f.pos)
+      | _ => (false, 99, 0)) = (true, 0, 3) := by
+  decide +kernel
+
+#print axioms c16_with_pratt_refines
+#print axioms c16_with_pratt_parse
+#print axioms c16_with_pratt_check_eq_emit
+#print axioms c16_with_pratt_failure_reported
 #print axioms c16_general_refines
 #print axioms c16_general_parse
 #print axioms c16_general_hole
